@@ -3,6 +3,16 @@
 import json, os, sys
 HERE = os.path.dirname(os.path.abspath(__file__))
 CLAIMED = {
+ "C15": ("model_checking",
+         "exhaustive truth-table enumeration over form switch combinations x value lattice x entry points, plus explicit-state enumeration of all call histories (depth<=2/3) on one validator / parameter / form / pool object",
+         "Part A: every combination of the group / dependency / optional / enabled switches (468 configurations) for 14 form kinds against a reference predicate written from the ui.json documentation, through six entry points; Part N: the new-style Parameter / FormParameter / UIJson classes; Part B: all call sequences up to the stated length on the same object - the last verdict must equal the verdict of a fresh object and a refused call must leave data and form unchanged.",
+         "Reference predicate = docs/content/uijson_format; any exception counts as refusal; lattice and history depth bounded as printed in the evidence.",
+         "DESIGN.md §4 C15"),
+ "C19": ("fault_enumeration",
+         "exhaustive single-fault enumeration (every attribute / link deletion) over a corpus of library-written files, differential against the intact reading",
+         "For every file of the corpus (six scenes x uid orders x modes x format versions in the thorough tier) every single deletion of one HDF5 attribute or link is applied with plain h5py; optional items must still open and leave every entity not described by the item unchanged; mandatory items must raise or drop only the described entities and their descendants.",
+         "Single faults only, on the listed corpus; the reference is the library's own reading of the intact file (agreement with the written state is C01's job).",
+         "DESIGN.md §4 C19"),
  "C06": ("model_checking",
          "explicit-state BFS over create/copy/remove/re-create histories with caller-supplied identifiers on the real library",
          "All histories over creations (fresh uid, uid of a live entity of the same or another kind, uid of a removed entity), copies within and across workspaces (uid free or taken in the target), removals and re-opens up to the stated depth: no identifier twice among live entities or types (listings, tree, file), a refused reuse leaves live tree and file digests unchanged, lookups return the single owner, same-workspace copies get fresh identifiers for entity, children and property groups, cross-workspace copies keep every identifier that is free in the target, one type per object/group class.",
